@@ -12,3 +12,13 @@ def match(known, prop, d, c, v):
 
 
 MATCHERS = {}
+
+
+def match_dag(known, prop, v):
+    for k in known:
+        if k.get("status") != "known" or prop not in k.get("properties", []):
+            continue
+        fn = MATCHERS.get(k["id"])
+        if fn and fn(None, None, v):
+            return k
+    return None
